@@ -29,6 +29,7 @@ type LifeParams struct {
 	PoorSP      bool  // one provider has almost no liquid balance (debt paths)
 	Drain       bool  // at the end advance past every scheduled height
 	DrainCap    int64 // do not drain beyond this height (0 = no cap)
+	DrainAll    bool  // afterwards cancel / terminate / claim / withdraw everything
 	Params      func(p *nodetypes.Params)
 }
 
@@ -434,7 +435,53 @@ func (l *Life) Run() {
 		}
 		w.EndBlock()
 	}
+	if l.P.DrainAll && !w.Halted() {
+		l.drainAll()
+	}
 	w.Finish()
+}
+
+// drainAll winds everything down: every in-flight order is cancelled by its creator, every model terminated by
+// its owner, every provider claims and withdraws all free capacity.  None of these entitled payouts may fail.
+func (l *Life) drainAll() {
+	w := l.W
+	for _, o := range sortedOrders(w.Cur) {
+		if o.Status == OrderCompleted || o.Operation == 3 {
+			continue
+		}
+		for _, a := range w.Accts {
+			if a.Addr.String() == o.Creator {
+				prov := o.Creator
+				for _, g := range l.GW {
+					for _, h := range g.HotKeys {
+						if h == a {
+							prov = g.Acct.Addr.String()
+						}
+					}
+				}
+				w.Cancel(a, o.Id, prov)
+			}
+		}
+	}
+	w.EndBlock()
+	for _, d := range sortedMetaKeys(w.Cur) {
+		if m, ok := l.byData[d]; ok {
+			w.Terminate(m.owner.Id, nil, l.GW[0].Acct, "", d, nil)
+		}
+	}
+	w.EndBlock()
+	for _, sp := range l.SP {
+		w.Claim(sp.Acct)
+		if pl, ok := w.Cur.Pledges[sp.Acct.Addr.String()]; ok {
+			free := (pl.TotalStorage - pl.UsedStorage) / 1_000_000 * 1_000_000
+			if free > 0 {
+				w.RemoveVstorage(sp.Acct, uint64(free))
+			}
+		}
+	}
+	w.EndBlock()
+	w.Advance(3)
+	w.Case("life:drain-all:orders-left=%d,shards-left=%d", minInt(len(w.Cur.Orders), 3), minInt(len(w.Cur.Shards), 3))
 }
 
 func containsStr(l []string, x string) bool {
